@@ -87,6 +87,15 @@ type chalCase struct {
 	Text    string   `json:"challenge"`
 	Class   string   `json:"class"`   // supported | unsupported | grey
 	Feature string   `json:"feature"` // the distinguishing feature (part of the failure sig)
+	// how Text was put together (nil Pieces when an extra / malformed parameter was spliced in)
+	Pre, Mid, Post string
+	Pieces         []chalPiece
+}
+
+// chalPiece: one list element = Lead Key "=" value Trail; Quoted: value written as quoted-string
+type chalPiece struct {
+	Lead, Key, Val, Trail string
+	Quoted                bool
 }
 
 var c20Algs = []string{"", "MD5", "MD5-sess", "SHA-256", "SHA-256-sess", "SHA-512-256", "SHA-512-256-sess"}
@@ -207,30 +216,33 @@ func genChallenge(r *hk.Rand, wire bool) chalCase {
 	}
 
 	// ----- rendering -----
-	type kv struct{ k, v string }
+	type kv struct {
+		k, v   string
+		quoted bool
+	}
 	var ps []kv
-	ps = append(ps, kv{"realm", quoteQS(s.Realm)}, kv{"nonce", quoteQS(s.Nonce)})
+	ps = append(ps, kv{"realm", s.Realm, true}, kv{"nonce", s.Nonce, true})
 	if s.HasOpaque {
-		ps = append(ps, kv{"opaque", quoteQS(s.Opaque)})
+		ps = append(ps, kv{"opaque", s.Opaque, true})
 	}
 	if s.Alg != "" {
 		if r.Chance(35) {
-			ps = append(ps, kv{"algorithm", `"` + s.Alg + `"`})
+			ps = append(ps, kv{"algorithm", s.Alg, true})
 			feat = append(feat, "alg-quoted")
 		} else {
-			ps = append(ps, kv{"algorithm", s.Alg})
+			ps = append(ps, kv{"algorithm", s.Alg, false})
 		}
 	}
 	if s.Qop != nil {
 		switch {
 		case len(s.Qop) == 1 && r.Chance(30):
-			ps = append(ps, kv{"qop", s.Qop[0]})
+			ps = append(ps, kv{"qop", s.Qop[0], false})
 			feat = append(feat, "qop-unquoted")
 		case len(s.Qop) > 1 && r.Chance(50):
-			ps = append(ps, kv{"qop", `"` + strings.Join(s.Qop, ", ") + `"`})
+			ps = append(ps, kv{"qop", strings.Join(s.Qop, ", "), true})
 			feat = append(feat, "qop-list-space")
 		default:
-			ps = append(ps, kv{"qop", `"` + strings.Join(s.Qop, ",") + `"`})
+			ps = append(ps, kv{"qop", strings.Join(s.Qop, ","), true})
 		}
 	}
 	if s.UserhashP {
@@ -238,23 +250,16 @@ func genChallenge(r *hk.Rand, wire bool) chalCase {
 		if s.Userhash {
 			v = "true"
 		}
-		if r.Chance(20) {
-			v = `"` + v + `"`
-		}
-		ps = append(ps, kv{"userhash", v})
+		ps = append(ps, kv{"userhash", v, r.Chance(20)})
 	}
 	if s.Domain != "" {
-		ps = append(ps, kv{"domain", quoteQS(s.Domain)})
+		ps = append(ps, kv{"domain", s.Domain, true})
 	}
 	if s.Stale != "" {
-		ps = append(ps, kv{"stale", s.Stale})
+		ps = append(ps, kv{"stale", s.Stale, false})
 	}
 	if s.Charset != "" {
-		v := s.Charset
-		if r.Chance(30) {
-			v = `"` + v + `"`
-		}
-		ps = append(ps, kv{"charset", v})
+		ps = append(ps, kv{"charset", s.Charset, r.Chance(30)})
 	}
 	// ordering
 	for i := len(ps) - 1; i > 0; i-- {
@@ -262,25 +267,39 @@ func genChallenge(r *hk.Rand, wire bool) chalCase {
 		ps[i], ps[j] = ps[j], ps[i]
 	}
 	var parts []string
+	var pieces []chalPiece
 	for _, p := range ps {
-		parts = append(parts, p.k+"="+p.v)
+		v := p.v
+		if p.quoted {
+			v = quoteQS(p.v)
+		}
+		parts = append(parts, p.k+"="+v)
+		pieces = append(pieces, chalPiece{Key: p.k, Val: p.v, Quoted: p.quoted})
 	}
 	if s.ExtraParam != "" {
 		at := r.Intn(len(parts) + 1)
 		parts = append(parts[:at], append([]string{s.ExtraParam}, parts[at:]...)...)
+		pieces = nil
 	}
 	var sb strings.Builder
-	sb.WriteString("Digest" + hk.Pick(r, []string{" ", " ", " ", "  ", " \t"}))
+	c.Mid = hk.Pick(r, []string{"", "", "", " ", "\t"})
+	sb.WriteString("Digest " + c.Mid)
 	for i, p := range parts {
 		if i > 0 {
-			sb.WriteString(hk.Pick(r, []string{"", "", " "}) + "," + hk.Pick(r, []string{" ", " ", "", "  ", "\t", " \t "}))
+			trail, lead := hk.Pick(r, []string{"", "", " "}), hk.Pick(r, []string{" ", " ", "", "  ", "\t", " \t "})
+			sb.WriteString(trail + "," + lead)
+			if pieces != nil {
+				pieces[i-1].Trail, pieces[i].Lead = trail, lead
+			}
 		}
 		sb.WriteString(p)
 	}
 	c.Text = sb.String()
 	if !wire && r.Chance(15) {
-		c.Text = hk.Pick(r, []string{" ", "\t", "\r\n ", ""}) + c.Text + hk.Pick(r, []string{" ", "\n", "\t ", ""})
+		c.Pre, c.Post = hk.Pick(r, []string{" ", "\t", "\r\n ", ""}), hk.Pick(r, []string{" ", "\n", "\t ", ""})
+		c.Text = c.Pre + c.Text + c.Post
 	}
+	c.Pieces = pieces
 	if len(feat) == 0 {
 		feat = []string{"plain"}
 	}
